@@ -89,7 +89,7 @@ def budget(tier):
 
 
 def wall_cap(tier):
-    return 400 if tier == "quick" else 3600
+    return 400 if tier == "quick" else 1500
 
 
 # -- generation ---------------------------------------------------------------------------------
@@ -883,3 +883,25 @@ def shrink_candidates(plan):
 
 
 KNOWN = {}
+
+
+def mutate(plan, rng):
+    import copy
+
+    p = copy.deepcopy(plan)
+    p.pop("systematic", None)
+    r = rng.random()
+    if r < 0.3 and len(p["sources"]) > 1:
+        rng.shuffle(p["sources"])
+        for j, s in enumerate(p["sources"]):
+            s["idx"] = j
+    elif r < 0.6:
+        o = gen_options(rng, p["mode"])
+        k = rng.choice(sorted(o))
+        if not (k == "sel" and o[k] in NEEDS_TAGS):
+            p["opts"][k] = o[k]
+    elif r < 0.8:
+        p["mode"] = rng.choice(MODES)
+    elif len(p["sources"]) < 6 and p["opts"]["sel"] not in NEEDS_TAGS:
+        p["sources"].append(gen_source(rng, rng.choice(["good"] + FAULT_KINDS), len(p["sources"])))
+    return p
